@@ -12,7 +12,7 @@
    radio frames is its composition with the theorems of C04 / C05 / C10. *)
 From Coq Require Import ZArith List Bool.
 From NV Require Import Base.Result Base.Bytes Base.PyPrims Model.Snep
-  Proofs.SnepChunks Proofs.SnepSched Proofs.Snep Proofs.SnepHo.
+  Proofs.SnepChunks Proofs.SnepSched Proofs.Snep Proofs.SnepHo Gen.SnepK Bridge.Snep.
 Import ListNotations.
 Open Scope Z_scope.
 
@@ -169,6 +169,177 @@ Theorem C06_snep_executable_run_ends :
       (session_log A app_put app_get max_acc a ops).
 Proof. exact snep_run_cp_ends. Qed.
 Print Assumptions C06_snep_executable_run_ends.
+
+
+(* ======================================================================================
+   Translation tie: Gen/SnepK.v is regenerated on every run from src/nfc/snep/{client,server}.py
+   and src/nfc/handover/{client,server}.py (translate/kspec_c06.py cuts the header pack/unpack,
+   the size tests, the slices and range() bounds of the fragment loops, the protocol constants
+   and the socket option out of the functions' syntax trees).  The theorems below state that
+   the model computes with exactly these expressions: each rewrites a model function with the
+   generated kernels gen_c06_* in the place of the model's own arithmetic.
+   pyrange a b s is Python's range(a, b, s) for a positive step. *)
+Theorem C06_bridge_constants :
+  gen_c06_rsp_continue = RSP_CONTINUE /\ gen_c06_srv_rsp_continue = RSP_CONTINUE /\
+  gen_c06_req_continue = REQ_CONTINUE /\ gen_c06_srv_req_continue = REQ_CONTINUE /\
+  gen_c06_rsp_reject = RSP_REJECT /\ gen_c06_rsp_unsupver = RSP_UNSUPVER.
+Proof. exact bridge_constants. Qed.
+Print Assumptions C06_bridge_constants.
+
+(* every sender reads its fragment size with getsockopt(nfc.llcp.SO_SNDMIU) *)
+Theorem C06_bridge_socket_options :
+  gen_c06_SO_SNDMIU = SO_SNDMIU /\ gen_c06_SO_RCVMIU = SO_RCVMIU /\
+  gen_c06_opt_snep_client = fragment_size_option /\ gen_c06_opt_snep_server = fragment_size_option /\
+  gen_c06_opt_ho_client = fragment_size_option /\ gen_c06_opt_ho_server = fragment_size_option /\
+  forall send_miu recv_miu, getsockopt send_miu recv_miu gen_c06_opt_ho_client = send_miu.
+Proof. exact bridge_socket_options. Qed.
+Print Assumptions C06_bridge_socket_options.
+
+(* put_octets / get_octets: struct.pack('>BBL', 0x10, 0x02, len) + octets, '>BBLL' ... *)
+Theorem C06_bridge_put_request : forall o, len o <= 4294967295 -> snep_request (OpPut o) = Ok (gen_c06_put_request o).
+Proof. exact bridge_put_request. Qed.
+Print Assumptions C06_bridge_put_request.
+Theorem C06_bridge_get_request : forall o acc, 4 + len o <= 4294967295 -> 0 <= acc <= 4294967295 ->
+  snep_request (OpGet o acc) = Ok (gen_c06_get_request o acc).
+Proof. exact bridge_get_request. Qed.
+Print Assumptions C06_bridge_get_request.
+Theorem C06_bridge_put_acceptable : forall miu o req, snep_request (OpPut o) = Ok req ->
+  client_start miu (OpPut o) = send_request miu KPut gen_c06_put_acceptable req.
+Proof. exact bridge_put_acceptable. Qed.
+Print Assumptions C06_bridge_put_acceptable.
+
+(* send_request: len(req) <= send_miu / req[0:send_miu] / range(send_miu, len(req), send_miu) / req[offset:offset+send_miu] *)
+Theorem C06_bridge_send_request : forall miu k acc req, 1 <= miu ->
+  send_request miu k acc req =
+  if gen_c06_req_whole req miu then (CAwaitResp k acc, [req])
+  else (CAwaitCont k acc (map (fun offset => gen_c06_req_fragment req offset miu)
+                              (pyrange (gen_c06_req_range_start req miu) (gen_c06_req_range_stop req miu)
+                                       (gen_c06_req_range_step req miu))),
+        [gen_c06_req_first req miu]).
+Proof. exact bridge_send_request. Qed.
+Print Assumptions C06_bridge_send_request.
+Theorem C06_bridge_continue_test : forall complete k acc rest m,
+  client_react complete (CAwaitCont k acc rest) (IMsg m) =
+  if negb (list_eqb m gen_c06_rsp_continue) then (CDone (send_failed k), []) else (CAwaitResp k acc, rest).
+Proof. exact bridge_continue_test. Qed.
+Print Assumptions C06_bridge_continue_test.
+
+(* recv_response: len < 6 / unpack('>BBL') length / length > acceptable_length / len - 6 < length *)
+Theorem C06_bridge_recv_first : forall k acc m,
+  recv_first k acc m =
+  if gen_c06_rsp_short m then (CDone (resp_none k), [])
+  else let length := gen_c06_rsp_length m in
+       if gen_c06_rsp_excess length acc then (CDone (resp_none k), [])
+       else if gen_c06_rsp_more m length then (CMoreResp k m length, [gen_c06_req_continue])
+       else (CDone (finish k m), []).
+Proof. exact bridge_recv_first. Qed.
+Print Assumptions C06_bridge_recv_first.
+Theorem C06_bridge_more_response : forall complete k data length m,
+  client_react complete (CMoreResp k data length) (IMsg m) =
+  if gen_c06_rsp_more (data ++ m) length then (CMoreResp k (data ++ m) length, [])
+  else (CDone (finish k (data ++ m)), []).
+Proof. exact bridge_more_response. Qed.
+Print Assumptions C06_bridge_more_response.
+Theorem C06_bridge_finish : forall k x code r,
+  finish k (x :: code :: r) =
+  if gen_c06_status_fail (x :: code :: r) then RSnepError code
+  else match k with KPut => RBool true | KGet => ROctets (gen_c06_get_result (x :: code :: r)) end.
+Proof. exact bridge_finish. Qed.
+Print Assumptions C06_bridge_finish.
+
+(* SnepServer._serve: the same tests on the request ... *)
+Theorem C06_bridge_serve_first : forall A app_put app_get decodable max_acc miu (s : srv A) m, sv_st s = SPoll ->
+  snep_react A app_put app_get decodable max_acc miu s (IMsg m) =
+  if gen_c06_srv_short m then (set_st A s SClosed, [])
+  else let version := gen_c06_srv_version m in
+       let length := gen_c06_srv_length m in
+       if gen_c06_srv_badver version then (s, [gen_c06_rsp_unsupver])
+       else if gen_c06_srv_excess length max_acc then (s, [gen_c06_rsp_reject])
+       else if gen_c06_srv_more m length then (set_st A s (SMore m length), [gen_c06_srv_rsp_continue])
+       else respond A app_put app_get decodable miu s m.
+Proof. exact bridge_serve_first. Qed.
+Print Assumptions C06_bridge_serve_first.
+Theorem C06_bridge_serve_more : forall A app_put app_get decodable max_acc miu (s : srv A) data length m,
+  sv_st s = SMore data length ->
+  snep_react A app_put app_get decodable max_acc miu s (IMsg m) =
+  if gen_c06_srv_more (data ++ m) length then (set_st A s (SMore (data ++ m) length), [])
+  else respond A app_put app_get decodable miu s (data ++ m).
+Proof. exact bridge_serve_more. Qed.
+Print Assumptions C06_bridge_serve_more.
+Theorem C06_bridge_serve_continue : forall A app_put app_get decodable max_acc miu (s : srv A) rest m,
+  sv_st s = SAwaitCont rest ->
+  snep_react A app_put app_get decodable max_acc miu s (IMsg m) =
+  if list_eqb m gen_c06_srv_req_continue then (set_st A s SPoll, rest) else (set_st A s SPoll, []).
+Proof. exact bridge_serve_continue. Qed.
+Print Assumptions C06_bridge_serve_continue.
+(* ... and the response: whole iff len(data) <= send_miu, else data[0:send_miu], then the range() slices *)
+Theorem C06_bridge_respond : forall A app_put app_get decodable miu (s : srv A) data a log resp, 1 <= miu ->
+  process_snep_request A app_put app_get decodable (sv_app s) (sv_log s) data = (a, log, Ok resp) ->
+  respond A app_put app_get decodable miu s data =
+  if gen_c06_srv_rsp_whole resp miu then ({| sv_st := SPoll; sv_app := a; sv_log := log |}, [resp])
+  else ({| sv_st := SAwaitCont (map (fun offset => gen_c06_srv_fragment resp offset miu)
+                                    (pyrange (gen_c06_srv_range_start resp miu) (gen_c06_srv_range_stop resp miu)
+                                             (gen_c06_srv_range_step resp miu)));
+           sv_app := a; sv_log := log |},
+        [gen_c06_srv_rsp_first resp miu]).
+Proof. exact bridge_respond. Qed.
+Print Assumptions C06_bridge_respond.
+Theorem C06_bridge_response : forall code data, 0 <= code < 256 -> len data <= 4294967295 ->
+  mk_response code data = Ok (gen_c06_response code data).
+Proof. exact bridge_response. Qed.
+Print Assumptions C06_bridge_response.
+
+(* process_snep_request: request_data[1] == 1 and len(request_data) >= 10, unpack('>L', request_data[6:10]),
+   request_data[10:], request_data[1] == 2, request_data[6:], len(response_data) > acceptable_length *)
+Theorem C06_bridge_process : forall A app_put app_get decodable a log data, 6 <= len data ->
+  process_snep_request A app_put app_get decodable a log data =
+  if gen_c06_is_get data then
+    let acceptable := gen_c06_get_acceptable data in
+    let octets := gen_c06_get_octets data in
+    if decodable octets then
+      let ar := app_get a octets in
+      let cd := match snd ar with
+                | GCode c => (c, [])
+                | GMsg o => if gen_c06_rsp_data_excess o acceptable then (193, []) else (129, o)
+                | GEncodeError => (192, [])
+                end in
+      (fst ar, log ++ [CallGet octets], mk_response (fst cd) (snd cd))
+    else (a, log, mk_response 194 [])
+  else if gen_c06_is_put data then
+    let octets := gen_c06_put_octets data in
+    if decodable octets then
+      let ar := app_put a octets in (fst ar, log ++ [CallPut octets], mk_response (snd ar) [])
+    else (a, log, mk_response 194 [])
+  else (a, log, mk_response 194 []).
+Proof. exact bridge_process. Qed.
+Print Assumptions C06_bridge_process.
+
+(* handover: send_octets loop (len(octets) > 0, octets[0:miu], octets[miu:]) and the server's
+   range(0, len(response), send_miu) slices; len(request) == 0 *)
+Theorem C06_bridge_ho_client : forall miu o, 0 <= miu ->
+  client_start miu (OpHo o) = (CHoRecv [], ho_send_loop (length o) miu o) /\ gen_c06_ho_sent_all [] = true.
+Proof. exact bridge_ho_client. Qed.
+Print Assumptions C06_bridge_ho_client.
+Theorem C06_bridge_ho_server_fragments : forall miu response, 1 <= miu ->
+  chunks miu response =
+  map (fun offset => gen_c06_ho_fragment response offset miu)
+      (pyrange (gen_c06_ho_range_start response miu) (gen_c06_ho_range_stop response miu)
+               (gen_c06_ho_range_step response miu)).
+Proof. exact bridge_ho_server_fragments. Qed.
+Print Assumptions C06_bridge_ho_server_fragments.
+Theorem C06_bridge_ho_serve : forall A app_ho complete is_hr miu reset (s : hsrv A) request m, hv_st s = HAccum request ->
+  ho_react A app_ho complete is_hr miu reset s (IMsg m) =
+  let request' := request ++ m in
+  if gen_c06_ho_empty request' then (s, [])
+  else if complete request' then
+    match ho_process A app_ho is_hr (hv_app s) (hv_log s) request' with
+    | (a, log, response) =>
+        ({| hv_st := HAccum (if reset then [] else request'); hv_app := a; hv_log := log |}, chunks miu response)
+    end
+  else ({| hv_st := HAccum request'; hv_app := hv_app s; hv_log := hv_log s |}, []).
+Proof. exact bridge_ho_serve. Qed.
+Print Assumptions C06_bridge_ho_serve.
+
 
 (* non-vacuity: a 300 octet message through MIU 128 (three request fragments), acceptable
    length 300; a 300 octet handover request with a decoder that accepts exactly that message *)
